@@ -75,10 +75,23 @@ func main() {
 
 	rep.Discover = os.Getenv("VERIF_DISCOVER") != ""
 
-	// the sequential part gets at most 60% of a budget, the rest is the concurrent part's
-	seqDeadline := deadline
+	// the instances part gets at most 20% of a budget, it and the sequential part
+	// together at most 60%, the rest is the concurrent part's
+	seqDeadline, instDeadline := deadline, deadline
 	if budget > 0 {
 		seqDeadline = time.Now().Add(time.Duration(budget) * 600 * time.Millisecond)
+		instDeadline = time.Now().Add(time.Duration(budget) * 200 * time.Millisecond)
+	}
+
+	// histories over several live identity managers, in one goroutine, before
+	// anything is replayed on parallel workers (see inst.go)
+	inst, err := runInstances(*tier, rep, instDeadline)
+	if err != nil {
+		harness("instances part: %v", err)
+	}
+
+	if rep.Total > 0 {
+		seqWorkers = 1 // instances are not known to be independent of each other: no parallel replay
 	}
 
 	seq, err := runSequential(*tier, depth, rep, seqDeadline)
@@ -135,7 +148,7 @@ func main() {
 		assumptions []string
 	)
 
-	for _, p := range []partResult{seq, conc, race} {
+	for _, p := range []partResult{inst, seq, conc, race} {
 		for c := range p.Classes {
 			classes[p.Name+": "+c] = true
 		}
@@ -163,18 +176,20 @@ func main() {
 		known = []string{}
 	}
 
-	cov["states"] = seq.States + conc.States
-	cov["transitions"] = seq.Transitions + conc.Transitions + race.Transitions
-	cov["traces_validated_against_impl"] = seq.Transitions + conc.Transitions + race.Transitions
-	cov["evaluations"] = seq.Evaluations + conc.Evaluations + race.Evaluations
+	cov["states"] = inst.States + seq.States + conc.States
+	cov["transitions"] = inst.Transitions + seq.Transitions + conc.Transitions + race.Transitions
+	cov["traces_validated_against_impl"] = inst.Transitions + seq.Transitions + conc.Transitions + race.Transitions
+	cov["evaluations"] = inst.Evaluations + seq.Evaluations + conc.Evaluations + race.Evaluations
+	cov["seq_workers"] = seqWorkers
 	cov["distinct_nontrivial"] = len(cl)
 	cov["rule"] = "seq: every history up to the bound over the call alphabet is executed on a fresh real MemIdm (one transition = one replayed history + one call + the full state check; evaluations = transitions + the lookups of the state checks, i.e. every real call whose outcome was compared with the model); " +
 		"a case class is (method, class of each operand in the model state before the call: admin / admin-name readded / absent / live / live with gid 0 / retired id / never used id, error type returned); " +
+		"inst: the same on histories whose letters address one of several live identity managers or create another one; every instance is checked after every letter (one transition = one replayed history + one letter + the full state check of every instance); " +
 		"distinct_nontrivial counts the distinct classes observed, listed in outcome_classes"
 	cov["outcome_classes"] = cl
 	cov["samples"] = samples
-	cov["exhaustive"] = seq.Exhaustive && conc.Exhaustive && race.Exhaustive
-	cov["bound"] = "seq: " + seq.Bound + "; conc: " + conc.Bound + "; race: " + race.Bound
+	cov["exhaustive"] = inst.Exhaustive && seq.Exhaustive && conc.Exhaustive && race.Exhaustive
+	cov["bound"] = "inst: " + inst.Bound + "; seq: " + seq.Bound + "; conc: " + conc.Bound + "; race: " + race.Bound
 	cov["known_findings_matched"] = known
 	cov["violating_instances"] = rep.Total
 	cov["budget_s"] = budget
@@ -189,7 +204,7 @@ func main() {
 	}
 
 	fmt.Printf("%s %s: %s; %s; %d outcome classes; known findings matched %v; new violation signatures %d; exhaustive=%v; %.1fs\n",
-		*id, *tier, seq.Summary, conc.Summary+"; "+race.Summary, len(cl), known, rep.NewCount(), cov["exhaustive"], ev.Elapsed())
+		*id, *tier, inst.Summary+"; "+seq.Summary, conc.Summary+"; "+race.Summary, len(cl), known, rep.NewCount(), cov["exhaustive"], ev.Elapsed())
 
 	os.Exit(code)
 }
@@ -208,18 +223,23 @@ func runReplay(path string) int {
 	var f struct {
 		Signature kf.Sig `json:"signature"`
 		Replay    struct {
-			Part string `json:"part"`
-			Ops  []Call `json:"ops"`
+			Part   string      `json:"part"`
+			Ops    []Call      `json:"ops"`
+			Events []instEvent `json:"events"`
 		} `json:"replay"`
 	}
 
-	if err := json.Unmarshal(b, &f); err != nil || f.Replay.Part != "seq" {
+	if err := json.Unmarshal(b, &f); err != nil || (f.Replay.Part != "seq" && f.Replay.Part != "inst") {
 		fmt.Fprintln(os.Stderr, "c15: replay: not a sequential C15 replay file:", err)
 
 		return 2
 	}
 
 	verifrt.SetMode(verifrt.ModeSeq)
+
+	if f.Replay.Part == "inst" {
+		return instRunReplay(f.Replay.Events, f.Signature)
+	}
 
 	e, err := newExplorer(len(f.Replay.Ops))
 	if err != nil {
